@@ -512,3 +512,68 @@ def run_accum_guard(run, P, units=('coap_uri.c',)):
                                   'the digit loop stops when its value guard (%s %d) fails, which it does at the value %d with digits still unread, but the range check after the loop '
                                   '(%s %d) lets %d through: the unread digits are dropped and an out-of-range number is accepted as %d' % (op1, K1, cex, op2, K2, cex, cex), [])
     run.require_count(n >= 1 or run.fixture_mode, 'R-LEN-READ(accumulator guard): no guarded digit accumulation followed by a range check found in %s' % (units,))
+
+
+def run_pair_advance(run, P, units=('coap_option.c',)):
+    """R-LEN-READ (cursor and remaining length move together): a decoder that walks a buffer with a byte cursor and the number of bytes left
+    (two parameters, both modified: `const coap_opt_t *opt, size_t length`) changes them in step: every advance of the cursor by k has, in
+    the same basic block, a decrease of the remaining length by the same k (the ADVANCE_OPT idiom), and vice versa.  A cursor stepped
+    alone leaves the count one too large: the final "value longer than what is left" test then accepts an option whose value is cut by
+    one byte, and everything behind reads past the datagram."""
+    run.rule('R-LEN-READ')
+    n = 0
+
+    def step(t):
+        """(variable, signed amount key) for ++v / v++ / v += k / v = v + k / --v / v -= k"""
+        if t.get('k') == 'un' and t.get('op') in ('++', 'post++', '--', 'post--') and ap(t.get('e')):
+            return ap(t['e']), ('+' if '++' in t['op'] else '-') + '1'
+        if t.get('k') == 'asg' and ap(t['l']):
+            if t.get('op') in ('+=', '-='):
+                return ap(t['l']), t['op'][0] + (str(const_int(t['r'])) if const_int(t['r']) is not None else short(t['r']))
+            if t.get('op') == '=':
+                r = strip(t['r'])
+                if isinstance(r, dict) and r.get('k') == 'bin' and r.get('op') in ('+', '-') and ap(strip(r['l'])) == ap(t['l']):
+                    return ap(t['l']), r['op'] + (str(const_int(r['r'])) if const_int(r['r']) is not None else short(r['r']))
+        return None
+    for f in sorted(P.lib_funcs(), key=lambda f: f['name']):
+        if units and f['unit'] not in units:
+            continue
+        ps = f.get('params') or ()
+        ptrs = set('v%s' % p['id'] for p in ps if p.get('p') and (p.get('pt') or '').replace('const ', '') in ('unsigned char', 'uint8_t', 'coap_opt_t'))
+        lens = set('v%s' % p['id'] for p in ps if not p.get('p') and (p.get('t') or '') in ('size_t', 'unsigned int', 'uint32_t', 'int'))
+        if not ptrs or not lens:
+            continue
+        per_block = {}
+        for b in f['blocks']:
+            for ev in b['elems']:
+                for x in walk(ev['e']) if not ev.get('top') else [ev['e']]:
+                    pass
+            for ev in b['elems']:
+                t = ev['e']
+                cands = [t] if ev.get('top') else []
+                # a step buried in an expression (result->value = ++opt)
+                if ev.get('top'):
+                    cands += [x for x in walk(t) if isinstance(x, dict) and x is not t and x.get('k') in ('un', 'asg')]
+                for x in cands:
+                    s_ = step(x)
+                    if s_ and (s_[0] in ptrs or s_[0] in lens):
+                        per_block.setdefault(b['id'], []).append((s_, ev['loc'], short(x)))
+        modp = set(s_[0][0] for v in per_block.values() for s_ in v if s_[0][0] in ptrs)
+        modl = set(s_[0][0] for v in per_block.values() for s_ in v if s_[0][0] in lens)
+        if len(modp) != 1 or len(modl) != 1:
+            continue
+        cur, rem = list(modp)[0], list(modl)[0]
+        n += 1
+        run.instance('R-LEN-READ', '%s: cursor and remaining length are stepped together (%d block(s))' % (f['name'], len(per_block)))
+        for bid, steps in sorted(per_block.items()):
+            adv = sorted(a[1:] for (v, a), _l, _s in steps if v == cur and a[0] == '+')
+            dec = sorted(a[1:] for (v, a), _l, _s in steps if v == rem and a[0] == '-')
+            ok = adv == dec
+            run.oblige('R-LEN-READ', ok, '%s:cursor-and-count-in-step' % f['name'])
+            if not ok:
+                loc = steps[0][1]
+                run.violation('R-LEN-READ', f['name'], loc, 'cursor-and-count-out-of-step',
+                              'in this block the cursor is advanced by [%s] while the remaining length is lowered by [%s] (%s): the count no longer says how many bytes are '
+                              'left behind the cursor, and the truncation test that follows compares with the wrong number'
+                              % (', '.join(adv) or 'nothing', ', '.join(dec) or 'nothing', '; '.join(s for _a, _l, s in steps)[:80]), [])
+    run.require_count(n >= 1 or run.fixture_mode or run.cfg != 'base', 'R-LEN-READ(pair advance): no decoder that steps a cursor parameter and a remaining-length parameter found (expected coap_opt_parse)')
